@@ -1,6 +1,7 @@
 """C08 - Every operation returns in every reachable state: lock-discipline clause."""
 from ..guards import world_of, conflict, is_guard_ty
 from ..callgraph import cg_of
+from ..roles import roles_of
 from ..defuse import du_of, walk
 
 TEXT = ("Static lock-discipline analysis over the MIR of every function and closure of the crate (all cargo "
@@ -21,7 +22,7 @@ TRUSTED = ["rustc nightly MIR construction and callee resolution",
 
 # frozen, one-symbol-wide exceptions: key -> reason
 EXCEPTIONS = {
-    "melda::Melda::check_delta->melda::Melda::check_delta|DELTA.write-under-write":
+    "<marker>-><marker>|DELTA.write-under-write":
         "check_delta holds DELTA(d) for writing while recursing into a *parent* of d; the parent is a different "
         "map element because a loaded block's index strictly exceeds each parent's (C13/I2, load_raw_delta rejects "
         "anything else), so d is never its own ancestor. Validated structurally: the recursive argument must derive "
@@ -80,8 +81,10 @@ def run(facts, res):
                     if c == "read-under-read":
                         rur.append((p, cls, site, subj))
                         continue
-                    if subj in EXCEPTIONS and _validate_exception(subj, body, site, bl, tok):
-                        res.exception(res.prop + "|R1|" + subj, EXCEPTIONS[subj])
+                    mk = roles_of(facts).path("marker")
+                    gsubj = subj.replace(mk, "<marker>")
+                    if gsubj in EXCEPTIONS and _validate_exception(subj, body, site, bl, tok):
+                        res.exception(res.prop + "|R1|" + gsubj, EXCEPTIONS[gsubj])
                         continue
                     chain = []
                     if isinstance(origin, tuple):
